@@ -575,8 +575,10 @@ mod c26 {
             }
             rec.drain();
         }
-        // let everything that is still held or blocked finish
-        verif::reset();
+        // let everything that is still held or blocked finish (the event log is kept)
+        for u in actors.keys() {
+            verif::release(&label(u), 1_000_000);
+        }
         let mut hang = false;
         for w in std::iter::once(&mut relay_actor).chain(actors.values_mut()) {
             while w.outstanding > 0 {
@@ -763,6 +765,11 @@ mod c25 {
         fn held_at(&self, label: &'static str) -> bool {
             verif::arrived(label) > self.rel.get(label).copied().unwrap_or(0)
         }
+        fn release_all(&self) {
+            for l in [A, B, C] {
+                verif::release(l, 1_000_000);
+            }
+        }
         fn release(&mut self, label: &'static str) {
             *self.rel.entry(label).or_default() += 1;
             verif::release(label, 1);
@@ -799,7 +806,7 @@ mod c25 {
         }
         /// Brings the endpoint back to: no run, no queued update, no pause armed.
         async fn cleanup(&mut self) -> Result<(), String> {
-            verif::reset();
+            self.release_all();
             for _ in 0..8 {
                 if !self.settle(Duration::from_secs(60)).await {
                     return Err("endpoint did not settle".into());
@@ -928,8 +935,8 @@ mod c25 {
                     other => return Err(format!("unknown step {other}")),
                 }
             }
-            // the word is over: no more stimulus; let go of everything and watch
-            verif::reset();
+            // the word is over: no more stimulus; let go of everything (the event log is kept) and watch
+            self.release_all();
             if !self.settle(Duration::from_secs(90)).await {
                 return Err("endpoint did not settle after the word".into());
             }
